@@ -294,14 +294,25 @@ def record_sessions(lentil, rng, nsess, nsteps):
     events = []
     for tid in range(nsess):
         pool = []
+        # in some sessions the caller builds every field from ONE offset list that it keeps re-using, and later moves fields by assigning
+        # their documented offset attribute: a field is where its offset says it is at the time it is used
+        reuse = rng.random() < 0.3
+        shared_off = [0, 0]
         for _ in range(4):
             sh = rng.choice([(2, 2), (2, 3), (3, 2), (3, 3), (1, 3), (4, 2)])
             f = mkfield(rng, sh, (rng.randint(-3, 3), rng.randint(-3, 3)))
-            pool.append(real_field(lentil, f))
+            if reuse:
+                shared_off[0], shared_off[1] = f['off']
+                pool.append(lentil.field.Field(data=np.array([[complex(*x) for x in row] for row in f['d']]), offset=shared_off))
+            else:
+                pool.append(real_field(lentil, f))
+        shared_off[0], shared_off[1] = 5, -5
         pool.append(lentil.field.Field(data=np.array(complex(*gint(rng, 1, 2))), offset=[0, 0]))     # an infinite constant
         for k in range(nsteps):
             act = rng.choice(('mul', 'mul', 'merge', 'reduce', 'insert'))
             arrs = [f for f in pool if np.asarray(f.data).ndim == 2]
+            if rng.random() < 0.15:
+                rng.choice(arrs).offset = [rng.randint(-3, 3), rng.randint(-3, 3)]          # the caller moves a field
             ev = {'id': len(events), 'tid': tid, 'seq': k, 'act': act}
             try:
                 if act == 'mul':
@@ -381,6 +392,21 @@ def run(ctx):
                           case={'event': e})
     for e in events:
         ctx.case(('session', e['tid'], e['seq']))
+    # a long chain of overlapping fields (each overlaps only its neighbours): reduce must give ONE field holding their sum, and the
+    # overlap test must say so, for any number of fields
+    for nf in (60, 1300 if q else 2500):
+        fl = [lentil.field.Field(np.full((2, 2), 1.0 + (k % 7)), offset=[0, k - nf // 2]) for k in range(nf)]
+        ctx.case(('long-chain', nf))
+        try:
+            red = lentil.field.reduce(fl)
+            tot = sum(float(np.asarray(r.data).real.sum()) for r in red)
+            ok = len(red) == 1 and red[0].shape == (2, nf + 1) and abs(tot - sum(4.0 * (1.0 + (k % 7)) for k in range(nf))) < 1e-6 \
+                and bool(lentil.field.overlap(fl))
+            err = None
+        except BaseException as ex:
+            ok, err = False, type(ex).__name__
+        if not ok:
+            ctx.violation({'op': 'reduce', 'kind': 'long-chain-of-overlapping-fields', 'raised': err}, {'fields': nf}, case=None)
     ctx.traces += len(cases) + len({e['tid'] for e in events})
     ctx.extra['session_events_validated'] = len(events)
     ctx.extra['cases_by_operation'] = kinds
